@@ -2,7 +2,11 @@
 
 Protocol (one op per line; the first line of a case is `cfg`):
   cfg maxOps errThr allowRenew lifeQ|none idleQ|none     lifeQ = quarter hours, idleQ = quarter minutes (exact as
-                                                          float hours/minutes; 0 is the falsy-argument glue case)
+                                                          float hours/minutes; 0 is the falsy-argument glue case);
+                                                          a new world: clock 0, one lifecycle in slot 0, selected
+  new k maxOps errThr allowRenew lifeQ|none idleQ|none   construct a lifecycle NOW in slot k (replacing), select it
+  use k                                                  select slot k; an empty slot is constructed now with the case's cfg
+                                                          (several lifecycles alive at once share the clock and nothing else)
   start | tick c | err | hb | timeouts | renew n|none r | apo | term | rst | adv us      (`rst` = Telomere.reset(); the word `reset` separates cases)
 Observation after each op:
   ret phase length errors ops renewals reason age [callback events] lockTrace
@@ -85,7 +89,8 @@ class C09(Prop):
         "start:go", "start:noop", "tick:dead", "tick:autostart", "tick:autostart-depleted", "tick:ok", "tick:depleted",
         "tick:senescent", "tick:senescent-depleted", "err:threshold", "err:threshold-noop", "err:rate", "err:rate-noop",
         "err:ok", "hb", "timeouts:inactive", "timeouts:lifetime", "timeouts:idle", "timeouts:ok", "renew:disallowed",
-        "renew:terminated", "renew:recover", "renew:extend", "apo:terminated", "apo:go", "term", "reset", "adv"]
+        "renew:terminated", "renew:recover", "renew:extend", "apo:terminated", "apo:go", "term", "reset", "adv",
+        "new", "use:old", "use:fresh"]
     assumptions = [
         "tick cost and renew amount are natural numbers (a negative cost/amount is outside the property's quantifier)",
         "on_phase_change / on_senescence callbacks return; they do not call back into the lifecycle",
@@ -106,6 +111,44 @@ class C09(Prop):
         self.clock = FakeClock()
         self.watchdog_s = 2.0     # shortened after the first genuine watchdog hang (the tree is violating by then)
         T.datetime = self.clock.datetime_class()
+        self._snapshot = self._snap()
+        self.module_reloads = 0
+
+    # --- cases are independent: process-global state of the module under test is pristine at the start of every case ----
+    def _snap(self):
+        """mutable containers bound at module level / class level of the code under test (identity + deep copy)"""
+        import collections
+        import copy
+        out = []
+        for owner in (self.T, self.T.Telomere):
+            for k, v in list(vars(owner).items()):
+                if k.startswith("__") or not isinstance(v, (dict, list, set, bytearray, collections.deque)):
+                    continue
+                try:
+                    out.append((owner, k, v, copy.deepcopy(v)))
+                except Exception:   # noqa
+                    pass
+        return out
+
+    def _pristine(self):
+        """If an earlier case left a mark on class-level / module-level state (a template dict that instances alias, a
+        registry, a cache), re-execute the module, so that a failing input is a failing input on its own: the leak must be
+        produced by the lines of the case itself."""
+        import importlib
+        dirty = False
+        for owner, k, v, saved in self._snapshot:
+            try:
+                if vars(owner).get(k) is not v or v != saved:
+                    dirty = True
+                    break
+            except Exception:   # noqa
+                dirty = True
+                break
+        if dirty:
+            self.T = importlib.reload(self.T)
+            self.T.datetime = self.clock.datetime_class()
+            self._snapshot = self._snap()
+            self.module_reloads += 1
 
     def extract(self, ctx):
         from ..extract import e3_telomere, py2lean_telomere
@@ -117,16 +160,23 @@ class C09(Prop):
     def _cfg(m, e, a, l, i):
         return f"cfg {m} {e} {1 if a else 0} {l} {i}"
 
-    def _rand_case(self, rng):
+    def _rand_cfg(self, rng):
         m = rng.choice([1, 2, 3, 4, 5, 6, 7, 8, 9, 10, 11, 12, 10, 10, 20, 30, 0, 12])
         e = rng.choice([1, 2, 3, 4, 2, 3, 100, 0] if rng.random() < 0.15 else [1, 2, 3, 4])
         a = rng.random() < 0.75
         l = rng.choice(["none", "none", "1", "2", "4", "0"])
         i = rng.choice(["none", "none", "1", "4", "40", "0"])
-        life = None if l in ("none", "0") else int(l) * LIFE_UNIT
-        idle = None if i in ("none", "0") else int(i) * IDLE_UNIT
-        prof = rng.choice(["mixed", "mixed", "long", "errors", "time", "early"])
-        w = {"start": 2, "tick": 8, "err": 3, "hb": 1, "timeouts": 3, "renew": 3, "apo": 1, "term": 1, "rst": 1, "adv": 3}
+        return m, e, a, l, i
+
+    def _rand_case(self, rng):
+        m, e, a, l, i = self._rand_cfg(rng)
+        lims = []
+        for v, unit in ((l, LIFE_UNIT), (i, IDLE_UNIT)):
+            if v not in ("none", "0"):
+                lims.append(int(v) * unit)
+        prof = rng.choice(["mixed", "mixed", "long", "errors", "time", "early", "resets", "multi", "multi"])
+        w = {"start": 2, "tick": 8, "err": 3, "hb": 1, "timeouts": 3, "renew": 3, "apo": 1, "term": 1, "rst": 1, "adv": 3,
+             "use": 0, "new": 0}
         if prof == "long":
             w.update(tick=16, apo=0.2, term=0.2, rst=0.3)
         elif prof == "errors":
@@ -135,29 +185,58 @@ class C09(Prop):
             w.update(adv=8, timeouts=8, hb=3, apo=0.3, term=0.3)
         elif prof == "early":
             w.update(start=0.5, err=5, renew=5, timeouts=4, tick=2)
+        elif prof == "resets":
+            # several resets on one lifecycle with activity in between: each epoch is judged on its own counts
+            w.update(rst=5, tick=10, err=6, renew=2, start=2, apo=0.5, term=0.5, timeouts=1, adv=1, new=1, use=1)
+        elif prof == "multi":
+            # several lifecycles alive at once, interleaved; fresh ones constructed after the others were used
+            w.update(use=7, new=2, rst=3, tick=9, err=6, renew=3, apo=0.4, term=0.4, timeouts=1.5, adv=1.5)
         names, ws = list(w), list(w.values())
         n = rng.choice([1, 2, 3, 4, 5, 6, 7, 7, 8, 10, 12, 16, 24])
+        if prof in ("resets", "multi"):
+            n = rng.choice([4, 6, 7, 8, 10, 12, 16, 24, 32])
+        unit_bias = prof in ("resets", "multi") and rng.random() < 0.6
         lines = [self._cfg(m, e, a, l, i)]
+        mcur = {0: m}
+        cur = 0
         for _ in range(n):
             op = rng.choices(names, ws)[0]
+            mm = mcur.get(cur, m)
             if op == "tick":
-                c = rng.choice([1, 1, 1, 1, 1, 0, 2, 3, max(m - 1, 0), m, m + 1])
+                c = rng.choice([1, 1, 1, 1, 1, 0, 2, 3, max(mm - 1, 0), mm, mm + 1])
+                if unit_bias and rng.random() < 0.8:
+                    c = 1
                 lines.append(f"tick {c}")
             elif op == "renew":
-                amt = rng.choice(["none", "none", "0", "1", "2", "5", str(m), str(m + 3)])
+                amt = rng.choice(["none", "none", "0", "1", "2", "5", str(mm), str(mm + 3)])
                 lines.append(f"renew {amt} {rng.choice([0, 1])}")
             elif op == "adv":
                 opts = [1, 1000, 60_000_000]
-                for lim in (life, idle):
-                    if lim:
-                        opts += [lim - 1, lim, lim + 1, lim // 2, lim]
+                for lim in lims:
+                    opts += [lim - 1, lim, lim + 1, lim // 2, lim]
                 lines.append(f"adv {rng.choice(opts)}")
+            elif op == "use":
+                cur = rng.choice([0, 1, 1, 2])
+                mcur.setdefault(cur, m)
+                lines.append(f"use {cur}")
+            elif op == "new":
+                cur = rng.choice([0, 1, 2, 3])
+                if rng.random() < 0.5:
+                    m2, e2, a2, l2, i2 = m, e, a, l, i          # a twin of the first lifecycle
+                else:
+                    m2, e2, a2, l2, i2 = self._rand_cfg(rng)
+                    for v, unit in ((l2, LIFE_UNIT), (i2, IDLE_UNIT)):
+                        if v not in ("none", "0"):
+                            lims.append(int(v) * unit)
+                mcur[cur] = m2
+                lines.append("new %d %s" % (cur, self._cfg(m2, e2, a2, l2, i2)[4:]))
             else:
                 lines.append(op)
         return {"lines": lines, "note": f"random/{prof}"}
 
     def generate(self, rng, tier, n):
-        bad = ["tick", "tick -1", "tick x", "renew", "renew -3 1", "adv -5", "frobnicate", "renew 1", "tick 1 2"]
+        bad = ["tick", "tick -1", "tick x", "renew", "renew -3 1", "adv -5", "frobnicate", "renew 1", "tick 1 2", "use",
+               "use x", "new 1", "use -1"]
         for k in range(n):
             c = self._rand_case(rng)
             if k % 40 == 39:       # small malformed stream: both sides must answer bad-op and carry on
@@ -183,13 +262,14 @@ class C09(Prop):
                          + "; ".join(f"({c[4:]}, {d})" for c, d in plan), "cases": cases}]
 
     # --- implementation --------------------------------------------------------------------------------------
-    def _new(self, t):
+    def _new(self, t, fresh_clock=True):
         T = self.T
         evs: list[str] = []
         m, e, a = int(t[1]), int(t[2]), t[3] == "1"
         lh = None if t[4] == "none" else int(t[4]) / 4
         im = None if t[5] == "none" else int(t[5]) / 4
-        self.clock.us = 0
+        if fresh_clock:
+            self.clock.us = 0
         obj = T.Telomere(
             max_operations=m, max_lifetime_hours=lh, idle_timeout_minutes=im, error_threshold=e, allow_renewal=a,
             on_phase_change=lambda x, y: evs.append(f"{PH.get(x.value, '?')}>{PH.get(y.value, '?')}"),
@@ -207,50 +287,78 @@ class C09(Prop):
         return " ".join([PH.get(obj.get_phase().value, "?"), str(st.telomere_length), str(stats["error_count"]),
                          str(stats["operations_count"]), str(stats["renewal_count"]), reason, us])
 
+    def _first_obs(self, obj):
+        k2, v2 = call_guarded(lambda: self._observe(obj))
+        return f"- {v2} [] -" if k2 == "ok" else ("hang" if k2 == "hang" else f"raise:{type(v2).__name__}")
+
     def run_impl(self, case):
         obs = []
-        obj = evs = lock = None
-        dead = False
+        self._pristine()
+        slots: dict = {}          # k -> [obj, evs, lock, dead]
+        cur = 0
+        cfg0 = "cfg 10 3 1 none none".split()
+
+        def construct(k, toks, fresh_clock):
+            kind, val = call_guarded(lambda: self._new(toks, fresh_clock))
+            if kind != "ok":
+                slots[k] = [None, [], None, True]
+                return "hang" if kind == "hang" else f"raise:{type(val).__name__}"
+            slots[k] = [val[0], val[1], val[2], False]
+            return self._first_obs(val[0])
+
         for line in case["lines"]:
             t = line.split()
             if t and t[0] == "cfg" and len(t) == 6:
-                kind, val = call_guarded(lambda: self._new(t))
-                if kind != "ok":
-                    obs.append("hang" if kind == "hang" else f"raise:{type(val).__name__}")
-                    dead = True
-                    continue
-                obj, evs, lock = val
-                dead = False
-                k2, v2 = call_guarded(lambda: self._observe(obj))
-                obs.append(f"- {v2} [] -" if k2 == "ok" else ("hang" if k2 == "hang" else f"raise:{type(v2).__name__}"))
+                slots.clear()
+                cur, cfg0 = 0, t
+                obs.append(construct(0, t, True))
+                continue
+            if t and t[0] == "new" and len(t) == 7 and _num(t[1]) is not None:
+                if not slots:
+                    construct(0, cfg0, True)
+                cur = int(t[1])
+                obs.append(construct(cur, ["cfg"] + t[2:], False))
+                continue
+            if len(t) == 2 and t[0] == "use" and _num(t[1]) is not None:
+                if not slots:
+                    construct(0, cfg0, True)
+                cur = int(t[1])
+                if cur not in slots:
+                    obs.append(construct(cur, cfg0, False))
+                elif slots[cur][3]:
+                    obs.append("dead")
+                else:
+                    obs.append(self._first_obs(slots[cur][0]))
                 continue
             fn = None
-            if obj is None:
-                obj, evs, lock = self._new("cfg 10 3 1 none none".split())
+            if not slots:
+                construct(0, cfg0, True)
+            ent = slots.get(cur)
+            obj, evs, lock, dead = ent if ent is not None else (None, [], None, True)
             if t == ["start"]:
-                fn = obj.start
+                fn = lambda: obj.start()
             elif len(t) == 2 and t[0] == "tick" and _num(t[1]) is not None:
                 fn = lambda: obj.tick(int(t[1]))
             elif t == ["err"]:
-                fn = obj.record_error
+                fn = lambda: obj.record_error()
             elif t == ["hb"]:
-                fn = obj.heartbeat
+                fn = lambda: obj.heartbeat()
             elif t == ["timeouts"]:
-                fn = obj.check_timeouts
+                fn = lambda: obj.check_timeouts()
             elif len(t) == 3 and t[0] == "renew" and (t[1] == "none" or _num(t[1]) is not None):
                 fn = lambda: obj.renew(None if t[1] == "none" else int(t[1]), t[2] in ("1", "true", "True"))
             elif t == ["apo"]:
-                fn = obj.trigger_apoptosis
+                fn = lambda: obj.trigger_apoptosis()
             elif t == ["term"]:
-                fn = obj.terminate
+                fn = lambda: obj.terminate()
             elif t == ["rst"]:
-                fn = obj.reset
+                fn = lambda: obj.reset()
             elif len(t) == 2 and t[0] == "adv" and _num(t[1]) is not None:
                 fn = lambda: self.clock.advance_us(int(t[1]))
             if fn is None:
                 obs.append("bad-op")
                 continue
-            if dead:
+            if dead or obj is None:
                 obs.append("dead")
                 continue
             del evs[:]
@@ -262,7 +370,7 @@ class C09(Prop):
                 self.watchdog_s = 0.25 if self.watchdog_hangs < 20 else 0.1
             if kind == "hang" or lock.hung or isinstance(val, Hang):
                 obs.append("hang")
-                dead = True          # a hung daemon thread may still hold the lock: abandon the object
+                ent[3] = True        # a hung daemon thread may still hold the lock: abandon the object
                 continue
             if kind == "raise":
                 obs.append(f"raise:{type(val).__name__}")
@@ -274,49 +382,91 @@ class C09(Prop):
 
     # --- oracle: the property text on what the real code did ----------------------------------------------------
     def oracle(self, case, obs, extra):
+        """The property text on what the real code did.  Every lifecycle alive in the case is judged on ITS OWN history:
+        its configuration, its phase/length as last observed, its own errors and operations since ITS last reset
+        (errors also since its last granted renewal with reset_errors), its own start time.  Nothing of this is read from
+        the implementation's counters."""
+        from fractions import Fraction
         out = []
         V = lambda clause, exp, got, i: out.append(Violation(clause, exp, got, i))
-        maxo = thr = None
-        allow = True
-        life = idle = None
-        phase = None          # phase before the op, as last observed
-        length = None
+        RATE = Fraction(1, 2)     # "ERROR_SENESCENCE_RATE = 0.5  # Error ratio that triggers senescence" (documented constant)
         now = 0
-        start_at = None       # clock when the lifecycle became ACTIVE for the first time in this epoch
-        last_touch = None     # clock of the most recent call of any kind on the object (sound lower bound on idleness)
-        unit_true = 0         # unit ticks that reported True since the last renewal / reset
+        L: dict = {}              # slot -> record of one lifecycle
+        cur = 0
+        cfg0 = None
+
+        def fresh(t):
+            return {
+                "maxo": int(t[1]), "thr": int(t[2]), "allow": t[3] == "1",
+                "life": None if t[4] in ("none", "0") else int(t[4]) * LIFE_UNIT,
+                "idle": None if t[5] in ("none", "0") else int(t[5]) * IDLE_UNIT,
+                "phase": None,        # phase before the op, as last observed
+                "length": None,
+                "start_at": None,     # clock when the lifecycle became ACTIVE for the first time in this epoch
+                "last_touch": None,   # clock of the most recent call of any kind on it (sound lower bound on idleness)
+                "unit_true": 0,       # unit ticks that reported True since the last renewal / reset
+                "errs": 0,            # record_error() calls since the last reset / granted renew(reset_errors=True)
+                "ops": 0,             # ticks performed (not refused as APOPTOTIC/TERMINATED) since the last reset
+            }
+
         for i, (line, o) in enumerate(zip(case["lines"], obs)):
             t = line.split()
+            if not t:
+                continue
+            created = False
+            if t[0] == "cfg" and len(t) == 6:
+                L, cur, cfg0, now = {0: fresh(t)}, 0, t, 0
+                created = True
+            elif t[0] == "new" and len(t) == 7 and t[1].isdigit():
+                cur = int(t[1])
+                L[cur] = fresh(["cfg"] + t[2:])
+                created = True
+            elif t[0] == "use" and len(t) == 2 and t[1].isdigit():
+                cur = int(t[1])
+                if cur not in L:
+                    if cfg0 is None:
+                        continue
+                    L[cur] = fresh(cfg0)
+                    created = True
             if o in ("bad-op", "dead"):
+                continue
+            r = L.get(cur)
+            if r is None:
                 continue
             if o == "hang":
                 V("every_call_returns", "the call returns", f"{line!r} never returned", i)
-                phase = None
+                r["phase"] = None
                 continue
             if o.startswith("raise:"):
                 V("every_call_returns", "the call returns a value", f"{line!r} -> {o}", i)
                 continue
             f = o.split(" ")
             ret, ph, ln = f[0], f[1], int(f[2])
-            errs = int(f[3])
             evs = [x for x in f[8][1:-1].split(",") if x]
-            if t[0] == "cfg":
-                maxo, thr, allow = int(t[1]), int(t[2]), t[3] == "1"
-                life = None if t[4] in ("none", "0") else int(t[4]) * LIFE_UNIT
-                idle = None if t[5] in ("none", "0") else int(t[5]) * IDLE_UNIT
-                phase, length, now, start_at, last_touch, unit_true = ph, ln, 0, None, None, 0
+            maxo, thr, allow, life, idle = r["maxo"], r["thr"], r["allow"], r["life"], r["idle"]
+            if created:
+                r["phase"], r["length"] = ph, ln
                 if ph != "N":
                     V("legal_transitions", "a new lifecycle is NASCENT", ph, i)
                 if not (0 <= ln <= maxo):
                     V("length_in_bounds", f"0 <= length <= {maxo}", str(ln), i)
                 continue
+            phase, length = r["phase"], r["length"]
             if phase is None:
                 continue
             op = t[0]
+            if op == "use":
+                # nothing was called on this lifecycle since it was last observed (only on others)
+                if ph != phase:
+                    V("legal_transitions", f"phase {phase}: no call was made on this lifecycle", f"{ph} at {line!r}", i)
+                if not (0 <= ln <= maxo):
+                    V("length_in_bounds", f"0 <= length <= {maxo}", f"{ln} at {line!r}", i)
+                r["phase"], r["length"] = ph, ln
+                continue
             if op == "adv":
                 now += int(t[1])
             # ---- transitions announced by the callbacks, and the resulting phase
-            cur = phase
+            c = phase
             for ev in evs:
                 if ">" not in ev:
                     continue
@@ -328,14 +478,14 @@ class C09(Prop):
                 if not legal:
                     V("legal_transitions", "N>A, A>S, S>A by renew, *>P by apoptosis (not from T), *>T by terminate",
                       f"{ev} during {line!r}", i)
-                if a != cur:
-                    V("legal_transitions", f"transition starts from the current phase {cur}", f"{ev} during {line!r}", i)
-                cur = b
+                if a != c:
+                    V("legal_transitions", f"transition starts from the current phase {c}", f"{ev} during {line!r}", i)
+                c = b
             if op == "rst":
                 if ph != "N":
                     V("legal_transitions", "reset starts a new NASCENT epoch", ph, i)
-            elif cur != ph:
-                V("legal_transitions", f"phase {cur} (every change is announced)", f"{ph} after {line!r}", i)
+            elif c != ph:
+                V("legal_transitions", f"phase {c} (every change is announced)", f"{ph} after {line!r}", i)
             # ---- end states are reached: to APOPTOTIC on apoptosis, to TERMINATED on termination, start starts
             if op == "term" and ph != "T":
                 V("end_states_reached", "TERMINATED after terminate()", ph, i)
@@ -343,6 +493,8 @@ class C09(Prop):
                 V("end_states_reached", "APOPTOTIC after trigger_apoptosis() on a non-terminated lifecycle", ph, i)
             if op == "start" and phase == "N" and ph != "A":
                 V("legal_transitions", "ACTIVE after start() on a NASCENT lifecycle", ph, i)
+            if op == "renew" and ret == "1" and phase == "S" and ph != "A":
+                V("legal_transitions", "SENESCENT -> (renewal) ACTIVE: a granted renewal of a SENESCENT lifecycle", ph, i)
             # ---- absorbing / dead
             if phase == "T" and op != "rst" and ph != "T":
                 V("terminated_absorbing", "T", f"{ph} after {line!r}", i)
@@ -353,35 +505,48 @@ class C09(Prop):
                     V("tick_true_iff_active_after", f"{'1' if ph == 'A' else '0'} (phase {ph})", ret, i)
                 if ph == "A" and ln <= 0:
                     V("limits_force_senescence", "depleted lifecycle is not ACTIVE", f"length {ln} phase {ph}", i)
+                if phase not in ("P", "T"):
+                    r["ops"] += 1
             # ---- bounds
             if not (0 <= ln <= maxo):
                 V("length_in_bounds", f"0 <= length <= {maxo}", f"{ln} after {line!r}", i)
             if op == "tick" and t[1] == "1" and ret == "1":
-                unit_true += 1
-                if unit_true > maxo:
-                    V("hayflick", f"at most {maxo} unit ticks report True between renewals", str(unit_true), i)
+                r["unit_true"] += 1
+                if r["unit_true"] > maxo:
+                    V("hayflick", f"at most {maxo} unit ticks report True between renewals", str(r["unit_true"]), i)
             if op == "renew":
                 if (not allow or phase == "T") and (ret != "0" or ln != length or ph != phase):
                     V("renew_refused", f"False, phase {phase}, length {length}", f"{ret}, phase {ph}, length {ln}", i)
                 if ret == "1":
-                    unit_true = 0
+                    r["unit_true"] = 0
+                    if t[2] in ("1", "true", "True"):
+                        r["errs"] = 0
             if op == "rst":
-                unit_true, start_at, last_touch = 0, None, None
-            # ---- limits force senescence
-            if op == "err" and phase == "A" and errs >= thr and ph == "A":
-                V("limits_force_senescence", f"SENESCENT once errors ({errs}) reach the threshold {thr}", ph, i)
-            if ph == "A" and start_at is None:
-                start_at = now
+                r["unit_true"], r["start_at"], r["last_touch"], r["errs"], r["ops"] = 0, None, None, 0, 0
+            # ---- limits force senescence (this lifecycle's own errors / operations since its own last reset)
+            if op == "err":
+                r["errs"] += 1
+                if phase == "A" and ph == "A":
+                    if r["errs"] >= thr:
+                        V("limits_force_senescence",
+                          f"SENESCENT once this lifecycle's errors ({r['errs']}) reach its threshold {thr}", ph, i)
+                    elif r["ops"] > 0 and Fraction(r["errs"], r["ops"]) >= RATE:
+                        V("limits_force_senescence",
+                          f"SENESCENT once this lifecycle's error rate ({r['errs']}/{r['ops']} since its last reset) "
+                          f"reaches {RATE}", ph, i)
+            if ph == "A" and r["start_at"] is None:
+                r["start_at"] = now
             if op == "timeouts" and phase == "A":
-                if life and start_at is not None and now - start_at >= life and ph == "A":
-                    V("limits_force_senescence", f"SENESCENT: age {now - start_at}us >= lifetime {life}us", ph, i)
-                if idle and last_touch is not None and now - last_touch >= idle and ph == "A":
-                    V("limits_force_senescence", f"SENESCENT: idle {now - last_touch}us >= idle limit {idle}us", ph, i)
+                sa, lt = r["start_at"], r["last_touch"]
+                if life and sa is not None and now - sa >= life and ph == "A":
+                    V("limits_force_senescence", f"SENESCENT: age {now - sa}us >= lifetime {life}us", ph, i)
+                if idle and lt is not None and now - lt >= idle and ph == "A":
+                    V("limits_force_senescence", f"SENESCENT: idle {now - lt}us >= idle limit {idle}us", ph, i)
                 if ph == "A" and ret != "1":
                     V("limits_force_senescence", "check_timeouts reports True while ACTIVE", ret, i)
             if op not in ("adv", "timeouts", "rst"):
-                last_touch = now
-            phase, length = ph, ln
+                r["last_touch"] = now
+            r["phase"], r["length"] = ph, ln
         return out
 
     def nontrivial(self, case, obs):
